@@ -5,6 +5,7 @@ package main
 import (
 	"fmt"
 	"go/types"
+	"os"
 	"strings"
 
 	"golang.org/x/tools/go/ssa"
@@ -77,10 +78,10 @@ type Object struct {
 	Mem   *ByteMem
 	Seq   *SeqMem
 	ElemT types.Type
-	Len   *Term  // allocation length for bytes/seq objects (BV64)
-	Fresh bool   // allocated during the function under verification
-	Input bool   // (part of) a caller-supplied input buffer (ownership checks)
-	Tag   string // description
+	Len   *Term      // allocation length for bytes/seq objects (BV64)
+	Fresh bool       // allocated during the function under verification
+	Input bool       // (part of) a caller-supplied input buffer (ownership checks)
+	Tag   string     // description
 	T     types.Type // static type of a cell's value when known
 }
 
@@ -112,6 +113,7 @@ func bmBaseOf(arr *Term) *ByteMem { return &ByteMem{kind: bmBase, arr: arr} }
 var bmZeros = &ByteMem{kind: bmZero}
 
 func (m *ByteMem) Store(idx, val *Term) *ByteMem {
+	idx = simpUnder(idx)
 	// overwrite of the immediately preceding store to the same index
 	if m.kind == bmStore && m.idx == idx {
 		return &ByteMem{kind: bmStore, prev: m.prev, idx: idx, val: val, depth: m.depth}
@@ -120,6 +122,7 @@ func (m *ByteMem) Store(idx, val *Term) *ByteMem {
 }
 
 func (m *ByteMem) Copy(dst *Term, src *ByteMem, srcOff, n *Term) *ByteMem {
+	dst, srcOff, n = simpUnder(dst), simpUnder(srcOff), simpUnder(n)
 	if n.IsConst() && n.Val == 0 {
 		return m
 	}
@@ -139,13 +142,14 @@ func (m *ByteMem) Copy(dst *Term, src *ByteMem, srcOff, n *Term) *ByteMem {
 }
 
 func (m *ByteMem) Read(i *Term) *Term {
+	i = simpUnder(i)
 	switch m.kind {
 	case bmBase:
 		return Select(m.arr, i)
 	case bmZero:
 		return Const(8, 0)
 	case bmStore:
-		c := Eq(m.idx, i)
+		c := decideUnder(Eq(m.idx, i))
 		if c.IsTrue() {
 			return m.val
 		}
@@ -154,12 +158,41 @@ func (m *ByteMem) Read(i *Term) *Term {
 		}
 		return Ite(c, m.val, m.prev.Read(i))
 	case bmCopy:
-		in := ULt(Sub(i, m.dst), m.n)
+		if i.IsConst() && m.dst.IsConst() && i.Val < m.dst.Val {
+			// below the copied range (lengths are physically bounded far below 2^64, so i-dst cannot wrap into it)
+			return m.prev.Read(i)
+		}
+		if curPC != nil {
+			if d2, n2 := simpUnder(m.dst), simpUnder(m.n); d2 != m.dst || n2 != m.n {
+				m2 := *m
+				m2.dst, m2.n = d2, n2
+				m = &m2
+			}
+		}
+		if belowUnder(i, m.dst, m.n) {
+			return m.prev.Read(i)
+		}
+		in := decideUnder(ULt(Sub(i, m.dst), m.n))
 		if in.IsTrue() {
 			return m.src.Read(Add(m.srcOff, Sub(i, m.dst)))
 		}
 		if in.IsFalse() {
 			return m.prev.Read(i)
+		}
+		if dbgReads > 0 {
+			dbgReads--
+			b := boundsOf(curPC)
+			x, y := Sub(i, m.dst), m.n
+			for _, v := range Vars(y) {
+				fmt.Fprintf(os.Stderr, "   var %s in [%d,%d]\n", v.Name, b.rng(v).lo, b.rng(v).hi)
+			}
+			for q := curPC; q != nil; q = q.prev {
+				if strings.Contains(q.t.String(), os.Getenv("GOVC_DEBUG_READS")) {
+					fmt.Fprintf(os.Stderr, "   fact %s\n", trunc(q.t.String(), 200))
+				}
+			}
+			fmt.Fprintf(os.Stderr, "   simp(n)=%s\n", trunc(simpUnder(y).String(), 300))
+			fmt.Fprintf(os.Stderr, "UNDECIDED copy range: i=%s dst=%s\n   i-dst=%s in [%d,%d]\n   n=%s in [%d,%d]\n", trunc(i.String(), 300), trunc(m.dst.String(), 200), trunc(x.String(), 300), b.rng(x).lo, b.rng(x).hi, trunc(y.String(), 300), b.rng(y).lo, b.rng(y).hi)
 		}
 		return Ite(in, m.src.Read(Add(m.srcOff, Sub(i, m.dst))), m.prev.Read(i))
 	}
@@ -174,13 +207,13 @@ type seqEntry struct {
 }
 
 type SeqMem struct {
-	id      int
-	elemT   types.Type
-	zero    bool // unknown entries are the zero value (make); else symbolic (materialised on demand)
-	name    string
-	entries []seqEntry // stores; later entries shadow earlier ones
-	memo    []seqEntry // materialised symbolic elements of the base
-	parent    *SeqMem // append: elements below parentLen are the parent's
+	id        int
+	elemT     types.Type
+	zero      bool // unknown entries are the zero value (make); else symbolic (materialised on demand)
+	name      string
+	entries   []seqEntry // stores; later entries shadow earlier ones
+	memo      []seqEntry // materialised symbolic elements of the base
+	parent    *SeqMem    // append: elements below parentLen are the parent's
 	parentLen *Term
 	allWF     map[string]*Term // predicate name -> bound: elements with index < bound satisfy the predicate (assumed universal facts, instantiated at reads)
 }
@@ -341,3 +374,10 @@ func describe(v Value) string {
 	}
 	return fmt.Sprintf("%T", v)
 }
+
+var dbgReads = func() int {
+	if os.Getenv("GOVC_DEBUG_READS") != "" {
+		return 40
+	}
+	return 0
+}()
